@@ -72,7 +72,8 @@ def check(inp):
         Ainv = np.linalg.inv(Lam) + M.T @ Ci @ M
         A = np.linalg.inv(Ainv)
         a = A @ (np.linalg.inv(Lam) @ mu + M.T @ Ci @ y)
-        tol = 1e-6 if inp["pt"] <= 2 else 1e-4
+        # the kernel inverts / solves with Ainv: both evaluations lose about eps * cond(Ainv)
+        tol = min(1e-3, max(1e-6 if inp["pt"] <= 2 else 1e-4, 2e-12 * float(np.linalg.cond(Ainv))))
         if int(size) != inp["nlin"]:
             bad("n_linear_samples-draws-per-row", size=size)
         if not np.allclose(mean, a, rtol=tol, atol=1e-8 * max(1.0, np.abs(a).max())):
